@@ -28,6 +28,7 @@ RULE = (
     ' Round 7: `reuse` senders re-send the object an earlier wake delivered.'
     ' Round 8: `keys=types` (cover up/down/stop), `listener=persistent`.'
     ' Round 9: `debug_log`; sent Message objects are not kept alive by the harness.'
+    ' Round 12: `wake_counters` (the counter carried by successive wake lines shrinks, repeats or restarts).'
     ' Round 11: a sender may send an internal command (heartbeat request) instead of a set; `listen_line` (the line that arrives during the race is the node asking for a parked key, not its wake).'
     " Round 10: `pre_lines` (pre/post-sleep notifications, other nodes' heartbeats); rule buffered-send-written-directly; a bystander gateway whose node of the same id wakes."
 )
@@ -99,6 +100,11 @@ def enumerate_cases(tier: str):
                 yield {"version": version, "parked": 2, "other_parked": 0, "senders": [[0, True], [1, True]], "pre_lines": [line]}
             for senders in ([[0, True]], [[1, True]], [[3, True]]):
                 yield {"version": version, "parked": 2, "other_parked": 0, "senders": senders, "bystander": True}
+            # the counter in the wake lines shrinks, repeats or restarts from one wake to the next (a node that rebooted)
+            for counters in ([9, 5, 1], [5, 5, 5], [1, 2, 0], [100, 1], [0, 0], [7, -1]):
+                for senders in ([[0, True]], [[0, True], [1, True]]):
+                    yield {"version": version, "parked": 2, "other_parked": 0, "senders": senders, "wake_counters": counters}
+                    yield {"version": version, "parked": 2, "other_parked": 0, "senders": senders, "wake_counters": counters, "prior": True}
             # one of the tasks sends an internal command to the sleeping node (a heartbeat request); or what arrives during the race is
             # the node's own request for a parked key, not its wake
             for senders in ([[0, True, "hb"]], [[0, True, "hb"], [0, True]], [[1, False, "hb"], [0, True]], [["other", True, "hb"], [1, True]]):
@@ -147,6 +153,7 @@ def strategy(tier: str):
             "listener": st.sampled_from(("fresh", "persistent")),
             "prior": st.booleans(),
             "listen_line": st.sampled_from(("wake", "wake", "wake", "req0", "req1")),
+            "wake_counters": st.sampled_from(([5], [5], [9, 5, 1], [1, 2, 3], [3, 3, 3], [100, 0])),
         }
     )
 
@@ -215,6 +222,11 @@ async def _run_schedule(case: dict, schedule: list[int]) -> tuple[Outcome | None
     async def receive(line: str):
         return await (shared_listener.next(line) if shared_listener is not None else env.rx(gateway, line))
 
+    counters = list(case.get("wake_counters") or [5])  # what the successive wake lines of node 1 carry (a counter may grow, repeat or restart)
+
+    def next_counter() -> str:
+        return str(counters.pop(0) if len(counters) > 1 else counters[0])
+
     registry = COLLIDE_REGISTRY if collide else REGISTRY
     if case.get("reported"):
         # both children of node 1 have already reported "s0" for both value types: a send of "s0" looks redundant
@@ -257,7 +269,7 @@ async def _run_schedule(case: dict, schedule: list[int]) -> tuple[Outcome | None
             if sender[0] != "other" and sender[1] and not (len(sender) > 2 and sender[2] in ("dup", "req")):  # (buffered senders only: a written value must be attributable)
                 await do_send(NODE1_KEYS[sender[0]], f"s{idx}", True, keep=len(sender) > 2 and sender[2] == "reuse")
                 prior_msgs[idx] = sends[-1].get("message")
-        await receive(f"1;255;3;0;{wake_type};5\n")
+        await receive(f"1;255;3;0;{wake_type};{next_counter()}\n")
         if any(rec["parked"] for rec in sends) and not transport.calls:
             return Outcome(ok=True, classes=("diverged-elsewhere",)), [], {}
     prior_calls = len(transport.calls)
@@ -332,7 +344,7 @@ async def _run_schedule(case: dict, schedule: list[int]) -> tuple[Outcome | None
         trace.append(f"{kind}{'' if arg is None else arg}")
         if kind == "listen":
             listen_tick[0] = transport.tick()
-            racing_line = f"1;255;3;0;{wake_type};5\n"
+            racing_line = f"1;255;3;0;{wake_type};{next_counter()}\n"
             if str(case.get("listen_line", "")).startswith("req") and not case.get("represented") and not case.get("reported"):
                 # what arrives while the senders run is not the wake but the node asking for the value of one of the parked keys
                 rkey = NODE1_KEYS[int(case["listen_line"][3:]) % len(NODE1_KEYS)]
@@ -373,7 +385,7 @@ async def _run_schedule(case: dict, schedule: list[int]) -> tuple[Outcome | None
     if bystander is not None:
         await env.rx(bystander, f"1;255;3;0;{wake_type};6\n")
     for node in (1, OTHER_KEY[0]):
-        status, value = await receive(f"{node};255;3;0;{wake_type};5\n")
+        status, value = await receive(f"{node};255;3;0;{wake_type};{next_counter() if node == 1 else 5}\n")
         if status == "drained":
             return fail("final-wake-swallowed", f"schedule {trace}: the wake line of node {node} was consumed but neither yielded nor rejected"), factors, info
         if status != "ok":
